@@ -120,7 +120,7 @@ def check_history(dag, assign, acc, base_dir, modes=("plain", "rich"), obs=None)
                     proc = generic_processor.GenericProcessor(bzrdir=control, params={b"mode": "default"}, verbose=False)
                     proc.process(parser.ImportParser(BytesIO(stream)).iter_commands)
                 except Exception as e:  # noqa
-                    acc.violation(sig_exc("import", e) + sfx + (qual(all_feats) if mode == "plain" else ""), dict(d, error=str(e)[:300]))
+                    acc.violation(sig_exc("import", e) + sfx + qual(all_feats), dict(d, error=str(e)[:300]))
                     continue
                 mark_of = dict(ex.revid_to_mark)           # source revid -> mark
                 marks = dict(proc.cache_mgr.marks)           # mark -> new revid
